@@ -107,6 +107,10 @@ def export_shapes():
            ("forall", [("e1", US)], ("Equals", h(e1), e2)), ("forall", [("u", B4)], ("BVULE", L(0, B4), u)),
            ("Not", ("forall", qa, ("And", ("Or", a, b), ("Not", ("Or", a, b))))),
            ("And", ("forall", qx, ("LT", ("Plus", x, L(1, INT)), y)), ("LT", ("Plus", x, L(1, INT)), y))]
+    # binders whose variable order is not the order in which the variables were created
+    sh += [("And", ("LT", x, y), ("forall", [("y", INT), ("x", INT)], ("LT", ("Plus", x, y), L(3, INT)))),
+           ("Or", ("LT", x, ("Plus", y, S("z", INT))), ("exists", [("z", INT), ("x", INT), ("y", INT)], ("LT", ("Plus", x, y), S("z", INT)))),
+           ("And", ("Or", a, b), ("forall", [("b", BOOL), ("a", BOOL)], ("Or", a, ("Not", b))))]
     # names that need quoting or collide with the printer's own names
     odd = ODD_NAMES
     for nm in odd:
@@ -398,6 +402,10 @@ def import_corpus():
     add("quoted-numeral-symbol-unused", "(declare-fun x () Int)(declare-fun |2| () Int)(assert (= x (+ 1 2)))")
     add("quoted-bv-literal-symbol", "(declare-fun |#b01| () Bool)(declare-fun u2 () (_ BitVec 2))(assert (or |#b01| (= u2 #b01)))")
     add("quoted-string-like-symbol", "(declare-fun |abc| () String)(declare-fun st () String)(assert (= st (str.++ abc \"abc\")))")
+    add("let-shadows-definition", D + "(define-fun d () Bool (not a))(assert (let ((d (or a b))) (and d a)))(assert d)")
+    add("quantifier-shadows-definition", D + "(define-fun q ((p Int)) Int (+ p 1))(define-fun k () Int 7)"
+        "(assert (forall ((k Int)) (< k (q k))))(assert (< k 9))")
+    add("definition-named-like-let-variable", D + "(define-fun .def_1 () Bool (not a))(assert (and (or a b) (not a)))(assert .def_1)")
     add("shared-across-asserts", D + "(assert (and (or a b) (< (+ x y) z)))(assert (or (or a b) (< (+ x y) 3)))"
         "(push 1)(assert (not (< (+ x y) z)))(check-sat)")
     add("bv-logic", BV + "(assert (= (bvand u (bvor v (bvxor u v))) (bvnand u (bvnor v (bvxnor u v)))))")
